@@ -228,17 +228,26 @@ def _bshape(shapes):
     return out
 
 
-def root_cause(case):
+STRUCT_CLAUSES = ("Shape", "Content", "Keys", "BlockShape", "LazyShape", "Reassemble", "UnexpectedRaise")
+DTYPE_CLAUSES = ("Kind", "Dtype", "ErrorExpected")
+
+
+def root_cause(case, clauses=None):
     """Input classes behind the recorded known findings (one root cause shows up under several
-    clauses and families): the first that applies names the violation."""
+    clauses and families): the first that applies - and can produce one of the observed clauses -
+    names the violation.  clauses=None: any."""
     xs = case["xs"]
     live = [x for x in xs if x["f"] != "-"]
-    if len(live) > 1 and any(x["f"] == "d" and any(s == 1 and 0 in c for s, c in zip(x["sh"], x["ch"])) for x in live):
+    can = lambda names: clauses is None or any(c in names for c in clauses)
+    if can(STRUCT_CLAUSES) and len(live) > 1 and \
+            any(x["f"] == "d" and any(s == 1 and 0 in c for s, c in zip(x["sh"], x["ch"])) for x in live):
         return "elemwise:zero-chunk-on-unit-axis"
     if case["fam"] == "outwhere" and xs[2]["f"] != "-":
+        # where=True (the Python constant) is the same code path as no where= at all
+        masked = xs[3]["f"] != "-" and not (xs[3]["f"] == "s" and xs[3]["v"] == [1])
         ins = [x["sh"] for x in (xs[0], xs[1], xs[3]) if x["f"] != "-"]
-        if list(xs[2]["sh"]) != _bshape(ins):
-            return "outwhere:out-shape-larger-than-inputs"
+        if not masked and list(xs[2]["sh"]) != _bshape(ins):
+            return "outwhere:out-shape-larger-than-inputs" if can(("UnexpectedRaise",)) else None
         try:
             with warnings.catch_warnings():
                 warnings.simplefilter("ignore")
@@ -247,16 +256,21 @@ def root_cause(case):
         except Exception:  # noqa: BLE001
             rk = "?"
         if rk != xs[2]["k"]:
-            return "outwhere:out-dtype-differs"
+            if masked and can(DTYPE_CLAUSES + ("UnexpectedRaise",)):
+                return "outwhere:where+out-dtype-differs"
+            if not masked and can(DTYPE_CLAUSES):
+                return "outwhere:out-dtype-differs"
     return None
 
 
-def classify(case, clause, spelling="da"):
+def classify(case, clauses, spelling="da"):
     """Signature = family, operand forms, failing clause and the structural class of the call; dtype
     clauses additionally name the operation and the kinds (they are specific to them)."""
-    root = root_cause(case)
+    clauses = [clauses] if isinstance(clauses, str) else list(clauses)
+    root = root_cause(case, clauses)
     if root:
         return root
+    clause = ([c for c in ORDER_ALL if c in clauses] or clauses)[0]
     forms = "".join(x["f"] for x in case["xs"])
     sig = "%s:%s:%s" % (case["fam"], forms, clause)
     if clause in ("Kind", "Dtype", "UnexpectedRaise", "ErrorExpected"):
@@ -266,6 +280,9 @@ def classify(case, clause, spelling="da"):
     if spelling == "np":
         sig += ":np-dispatch"
     return sig
+
+
+ORDER_ALL = ["ErrorExpected", "UnexpectedRaise", "Shape", "Kind", "Content", "Keys", "BlockShape", "LazyShape", "Dtype", "Reassemble"]
 
 
 # ------------------------------------------------------------------ spec -> code
@@ -335,14 +352,14 @@ def families(ctx):
         _cfg("where", "where", small if q else "{<<>>, <<1>>, <<3>>, <<2, 1>>, <<2, 3>>, <<0>>}", ["where"],
              [["b", "i", "i"], ["b", "u", "f"], ["i", "b", "i"]] + ([] if q else [["b", "i", "c"], ["b", "f", "i"]]),
              f("ddd", "dnd", "dds", "sdd", "dss") + ([] if q else f("ndn", "dsd", "sdn", "nsd")),
-             bad="{<<<<2>>, <<3>>, <<3>>>>}"),
+             allch=not q, bad="{<<<<2>>, <<3>>, <<3>>>>}"),
         _cfg("clip", "clip", small, ["clip"],
              [["i", "i", "i"], ["u", "i", "i"], ["i", "f", "i"]] + ([] if q else [["f", "i", "i"], ["u", "u", "i"], ["i", "i", "f"]]),
-             f("dss", "d-s", "ds-", "dds", "dnd") + ([] if q else f("ddd", "nds", "d--"))),
-        _cfg("outwhere", "outwhere", "{<<3>>, <<2, 1>>, <<2, 3>>}" if q else small, ["add"] if q else ["add", "lt"],
+             f("dss", "d-s", "ds-", "dds", "dnd") + ([] if q else f("ddd", "nds", "d--")), allch=not q),
+        _cfg("outwhere", "outwhere", "{<<>>, <<3>>, <<2, 1>>}" if q else small, ["add"] if q else ["add", "lt"],
              [["i", "i", "i", "b"], ["i", "i", "f", "b"], ["f", "i", "i", "b"]] + ([] if q else [["u", "i", "i", "i"], ["i", "u", "u", "b"]]),
              f("ddd-", "dd-d", "dddd", "dndn", "ddds") + ([] if q else f("dsdd", "nd-n", "dd-s")),
-             allch=q),
+             allch=False),
     ]
     caps = {"bcast": 6000, "kinds": 7000, "unary": 2000, "astype": 800, "where": 5000, "clip": 4000, "outwhere": 5000}
     return TLA("{" + ",\n ".join(cfgs) + "}"), caps
@@ -372,7 +389,7 @@ def replay_cases(ctx, label, cases, spell=None, report=True):
             if bad:
                 found.append((case, bad))
                 if report:
-                    ctx.violation(classify(case, bad[0], sp), "%s: dask disagrees with the reference on %s (%s)" % (bad[0], label, "+".join(bad)),
+                    ctx.violation(classify(case, bad, sp), "%s: dask disagrees with the reference on %s (%s)" % (bad[0], label, "+".join(bad)),
                                   {"case": case, "expected": exp, "spelling": sp, "observed": detail})
     return found
 
@@ -607,25 +624,34 @@ def validate(ctx, pairs, report=True):
                 names = [c for c in clauses[0].strip("{} ").replace('"', "").split(", ") if c]
                 found.append((r, names))
                 if report:
-                    ctx.violation(classify(r, names[0], r["spelling"]),
+                    ctx.violation(classify(r, names, r["spelling"]),
                                   "TLC rejects a recorded elementwise call (%s)" % clauses[0], {"record": r, "clauses": clauses})
     return found
 
 
+def enumerate_cases(ctx):
+    cfgs, caps = families(ctx)
+    spec, cfg = ctx.model(ctx.spec("array", "ElemwiseMC.tla"), {"Configs": cfgs}, invariants=INVS)
+    cases, _ = ctx.tlc_cases(spec, cfg, label="design+cases", timeout=3000)
+    bylab = {}
+    for c in cases:
+        bylab.setdefault(c["c"]["lab"], []).append(c)
+    return bylab, caps
+
+
 def run(ctx):
-    total, sampled = 0, False
-    crosscheck = []
+    bylab, caps = enumerate_cases(ctx)
     only = os.environ.get("VERIF_C19_FAMS")        # development aid: restrict the families
-    for label, consts, cap in families(ctx):
-        if only and label not in only.split(","):
-            continue
-        spec, cfg = ctx.model(ctx.spec("array", "ElemwiseMC.tla"), consts, invariants=INVS)
-        cases, _ = ctx.tlc_cases(spec, cfg, label="design+cases:" + label, timeout=2400)
+    total, sampled, crosscheck = 0, False, []
+    for label in sorted(bylab):
+        cases = bylab[label]
         total += len(cases)
         ctx.extra.setdefault("cases_per_family", {})[label] = len(cases)
-        if ctx.quick and len(cases) > cap:
+        if only and label not in only.split(","):
+            continue
+        if ctx.quick and len(cases) > caps[label]:
             sampled = True
-            cases = ctx.rng.sample(cases, cap)
+            cases = ctx.rng.sample(cases, caps[label])
         replay_cases(ctx, label, cases)
         ctx.sample({"case": cases[0]["c"], "expected": cases[0]["e"]})
         crosscheck += ctx.rng.sample(cases, min(len(cases), 60))
@@ -643,7 +669,7 @@ def run(ctx):
     ctx.extra["cases_enumerated_by_tlc"] = total
     ctx.assumptions = ["NumPy per-block kernels are correct", "TLC evaluates the reference semantics correctly",
                        "one concrete dtype per kind: bool, uint8, int64, float64, complex128",
-                       "shapes bounded as listed in tlc_runs constants"]
+                       "shapes bounded as listed in the Configs constant of the TLC run"]
 
 
 def crosscheck_verdicts(ctx, cases):
@@ -694,5 +720,84 @@ def replay(ctx, obj):
     return bool(bad)
 
 
+SELFTEST_CONFIGS = [
+    ("bcast", "binary", "{<<>>, <<2>>, <<2, 2>>}", ["add"], [["i", "i"]], ["dd", "dn"], True),
+    ("kinds", "binary", "{<<>>, <<2>>}", ["add", "lt"], [[a, b] for a in K5 for b in K5], ["ds", "sd"], False),
+    ("where", "where", "{<<>>, <<3>>}", ["where"], [["b", "i", "f"], ["b", "f", "i"], ["i", "b", "i"]], ["sdd", "ddd"], False),
+    ("outwhere", "outwhere", "{<<2>>}", ["add"], [["i", "i", "i", "b"]], ["ddd-", "dddd"], True),
+]
+
+
+def _mutants():
+    """(name, module, function, old, new, re-exporting modules): slips that compile, in the anchored functions."""
+    import dask.array as da
+    import dask.array.core as core
+    import dask.array.routines as routines
+    return [
+        ("elemwise: operands aligned on the leading instead of the trailing axes", core, "elemwise",
+         "(a, tuple(range(a.ndim)[::-1]) if not is_scalar_for_elemwise(a) else None)",
+         "(a, expr_inds[:a.ndim] if not is_scalar_for_elemwise(a) else None)", ()),
+        ("elemwise: dtype inferred with Python scalars as strongly typed arrays", core, "elemwise",
+         "                if not is_scalar_for_elemwise(a)\n                else a\n",
+         "                if not is_scalar_for_elemwise(a)\n                else np.asarray(a)\n", ()),
+        ("handle_out: out keeps its old chunks", core, "handle_out",
+         "        out._chunks = result.chunks\n", "        pass\n", ()),
+        ("where(scalar condition): result not cast to the common dtype", routines, "where",
+         "return broadcast_to(out, shape).astype(dtype)", "return broadcast_to(out, shape)", (da,)),
+    ]
+
+
 def selftest(ctx):
-    return 0
+    """Binding demonstration: (i) in-memory mutants of the anchored dask functions are reported as
+    violations by the same case loop run() uses; (ii) corrupted recorded observations are rejected by
+    the trace specification."""
+    from ..arrayobs import source_mutant
+    ok = True
+    f = lambda names: [list(n) for n in names]
+    cfgs = TLA("{" + ", ".join(_cfg(lab, fam, sh, ops, kt, f(forms), allch=allch) for lab, fam, sh, ops, kt, forms, allch in SELFTEST_CONFIGS) + "}")
+    spec, cfg = ctx.model(ctx.spec("array", "ElemwiseMC.tla"), {"Configs": cfgs}, invariants=INVS)
+    cases, _ = ctx.tlc_cases(spec, cfg, label="selftest cases")
+    cases = [c for c in cases if root_cause(c["c"]) is None]
+    spell = ["da"]
+    base = replay_cases(ctx, "selftest", cases, spell=spell, report=False)
+    print("selftest C19: %d cases, unchanged tree: %d violations  %s" % (len(cases), len(base), "ok" if not base else "FAIL"))
+    ok &= not base
+    for name, module, fn, old, new, also in _mutants():
+        with source_mutant(module, fn, old, new, also=also):
+            found = replay_cases(ctx, "selftest", cases, spell=spell, report=False)
+        clauses = sorted({c for _case, bad in found for c in bad})
+        print("selftest C19 mutant [%s]: %d of %d cases violate (%s)  %s"
+              % (name, len(found), len(cases), ",".join(clauses), "detected" if found else "NOT DETECTED"))
+        ok &= bool(found)
+    # (ii) corrupted recorded fields / dropped block are rejected by ElemwiseTrace
+    pairs = record_expressions(ctx, 12)
+    good = [r for r, _g in pairs if not r["obs"]["raised"] and len(r["obs"]["cells"]) > 1 and root_cause(r) is None
+            and not has_dontcare(r)]
+    rej = validate(ctx, [(r, dict(r, id="g" + r["id"])) for r in good], report=False)
+    print("selftest C19 trace: %d recorded steps, %d rejected unmodified  %s" % (len(good), len(rej), "ok" if not rej else "FAIL"))
+    ok &= not rej and len(good) >= 3
+    import copy
+    corrupt = []
+    for n, r in enumerate(good[:9]):
+        c = copy.deepcopy(r)
+        c["id"] = "c%d" % n
+        if n % 3 == 0:
+            c["obs"]["cells"][-1] += 1
+            want = "Content"
+        elif n % 3 == 1:
+            c["obs"]["blocks"] = c["obs"]["blocks"][:-1]
+            want = "Keys"
+        else:
+            c["obs"]["chunks"][-1] = c["obs"]["chunks"][-1] + [1] if c["obs"]["chunks"] else c["obs"]["chunks"]
+            c["obs"]["lshape"] = [n_ + 1 for n_ in c["obs"]["lshape"]] if not c["obs"]["chunks"] else c["obs"]["lshape"]
+            want = "LazyShape" if not c["obs"]["chunks"] else "Keys"
+        corrupt.append((c, want))
+    spec, cfg = ctx.model(ctx.spec("array", "ElemwiseTrace.tla"), {})
+    rejd = ctx.tlc_validate(spec, [c for c, _w in corrupt], cfg, label="selftest corrupted records")
+    for c, want in corrupt:
+        got = rejd.get(c["id"], [""])[0]
+        hit = want in got
+        print("selftest C19 corrupted record %s (%s): %s  %s" % (c["id"], want, got or "accepted", "rejected" if hit else "NOT REJECTED"))
+        ok &= hit
+    print("selftest C19: %s" % ("all binding checks hold" if ok else "FAILED"))
+    return 0 if ok else 1
